@@ -28,7 +28,8 @@ import os
 import random
 import sys
 
-SCALARS = ('int', 'double', 'string', 'size_t')
+ARRAYS = ('Vector', 'Matrix')     # parameters only: passed as double arrays, guarded by size() tests in the .m files
+SCALARS = ('int', 'double', 'string', 'size_t') + ARRAYS
 
 
 def ptype_iface(t, classes):
@@ -42,6 +43,8 @@ def ptype_iface(t, classes):
 def ptype_cpp(t, classes):
     if t == 'string':
         return 'const std::string&'
+    if t in ARRAYS:
+        return 'const gtsam::%s&' % t
     if t in SCALARS:
         return t
     kind, k = t
@@ -59,6 +62,11 @@ def make_universe(seed, module, void_static=False):
         depth = rng.choice([0, 1, 1, 2, 2, 3]) if ci == 0 else rng.choice([0, 0, 1, 2])
         ns = 'ns' if (use_ns and ci == nchains - 1 and nchains > 1) else ''
         allvirt = rng.choice([True, False, None])  # None: mixed
+        if ci == 0:
+            # three consecutive gateway seeds cover: an all-virtual chain, a chain of NON-virtual derived classes, a mixed one
+            # (the first chain always has a derived class)
+            depth = max(depth, 1)
+            allvirt = [True, False, None][seed % 3]
         prev = None
         for d in range(depth + 1):
             virt = allvirt if allvirt is not None else rng.random() < 0.5
@@ -229,6 +237,30 @@ def make_universe(seed, module, void_static=False):
     t, u = anyclass(), anyclass()
     add({'kind': 'func', 'cls': None, 'name': 'gtake',
          'params': [(('ref', t), 'r', None), (('ptr', u), 'p', None)], 'ret': None})
+    # array-valued parameters (Vector / Matrix), from a separate random stream so that the rest of the universe is
+    # what it was before they were added.  A Vector is a double column, a Matrix any double array: overloads that
+    # differ in Vector vs Matrix at one position are told apart by the size() guards of the generated .m files only.
+    rng2 = random.Random(seed * 7919 + 5)
+    for k in range(n):
+        if k == plain:
+            continue
+        if rng2.random() < 0.5:
+            tail = [('int', 'a', None), ('int', 'b', None), ('int', 'c', None)]     # arity 4: no other constructor has it
+            add({'kind': 'ctor', 'cls': k, 'name': classes[k]['name'], 'params': [('Vector', 'v', None)] + tail, 'ret': None})
+            add({'kind': 'ctor', 'cls': k, 'name': classes[k]['name'], 'params': [('Matrix', 'm', None)] + tail, 'ret': None})
+        if rng2.random() < 0.5:
+            add({'kind': 'method', 'cls': k, 'name': 'vm', 'const': True,
+                 'params': [('Vector', 'v', None), ('Matrix', 'm', None)], 'ret': 'int'})
+        if rng2.random() < 0.3:
+            add({'kind': 'static', 'cls': k, 'name': 'Vs', 'params': [('Matrix', 'm', None), ('string', 's', None)], 'ret': 'int'})
+    if rng2.random() < 0.8:
+        add({'kind': 'func', 'cls': None, 'name': 'vtotal', 'params': [('Vector', 'v', None)], 'ret': 'int'})
+        add({'kind': 'func', 'cls': None, 'name': 'vtotal', 'params': [('Matrix', 'm', None)], 'ret': 'int'})
+    if rng2.random() < 0.7:
+        # an overload of a free function that is NOT declared next to the other one (gsum(int, int) is declared further up)
+        add({'kind': 'func', 'cls': None, 'name': 'gsum', 'params': [('string', 's', None)], 'ret': 'int'})
+    if rng2.random() < 0.5:
+        add({'kind': 'func', 'cls': None, 'name': 'vdot', 'params': [('Vector', 'v', None), ('Vector', 'w', None)], 'ret': 'int'})
     for e in entities:
         if e['kind'] == 'ctor' or (e['kind'] in ('method', 'static', 'prop')):
             e['qname'] = classes[e['cls']]['cpp'].replace('::', '.') + '.' + e['name']
@@ -317,6 +349,8 @@ LIB_PRELUDE = r'''// generated by gen_iface.py -- instrumented stub library for 
 #include <string>
 #include <utility>
 #include <vector>
+#include <gtsam/base/Vector.h>
+#include <gtsam/base/Matrix.h>
 
 namespace c11 {
 struct Fresh {};      // tag: untraced constructor used by factory entities
@@ -360,6 +394,16 @@ inline long val(int v) { return v; }
 inline long val(size_t v) { return (long)v; }
 inline long val(double v) { return (long)v; }
 inline long val(const std::string& v) { return (long)v.size(); }
+// arrays are observed through one number that fixes shape and the position of every element:
+//   Vector: 1000*size + sum (i+1)*v(i);  Matrix: 100000*cols + 1000*rows + sum (j*rows+i+1)*M(i,j)
+inline long val(const gtsam::Vector& v) { long r = 1000L * v.size(); for (int i = 0; i < v.size(); ++i) r += (i + 1) * (long)v(i); return r; }
+inline long val(const gtsam::Matrix& m) {
+  long r = 100000L * m.cols() + 1000L * m.rows();
+  for (int j = 0; j < m.cols(); ++j) for (int i = 0; i < m.rows(); ++i) r += (j * m.rows() + i + 1) * (long)m(i, j);
+  return r;
+}
+inline std::string show(const gtsam::Vector& v) { return std::to_string(val(v)); }
+inline std::string show(const gtsam::Matrix& m) { return std::to_string(val(m)); }
 inline long val(const Tracked& v) { return v.serial; }
 inline long val(const Tracked* v) { return v->serial; }
 template <class T> long val(const std::shared_ptr<T>& v) { return v->serial; }
